@@ -58,6 +58,31 @@ def build_lock(name="lock"):
         f.close()
 
 
+def point_manifest(crate_dir):
+    """Harness crates path-depend on /repo/<crate>.  When VERIF_REPO names another tree (a scratch worktree used to
+    exercise the checks against a changed copy, e.g. from `vp run --with-repo`), rewrite the path dependencies of the
+    harness manifest to that tree.  With the default REPO = /repo this is the identity."""
+    path = os.path.join(crate_dir, "Cargo.toml")
+    try:
+        src = open(path).read()
+    except OSError:
+        return
+    new = re.sub(r'path\s*=\s*"(?:/repo|%s)/' % re.escape(REPO.rstrip("/")), 'path = "%s/' % REPO.rstrip("/"), src)
+    prev = os.path.join(crate_dir, ".verif_repo")
+    old = open(prev).read() if os.path.exists(prev) else "/repo"
+    if old != REPO:
+        new = new.replace('path = "%s/' % old.rstrip("/"), 'path = "%s/' % REPO.rstrip("/"))
+    if new != src:
+        with open(path, "w") as f:
+            f.write(new)
+        lock = os.path.join(crate_dir, "Cargo.lock")
+        if os.path.exists(lock):
+            os.remove(lock)
+    if old != REPO or os.path.exists(prev):
+        with open(prev, "w") as f:
+            f.write(REPO)
+
+
 # ------------------------------------------------------------------------------------------------
 # translator
 # ------------------------------------------------------------------------------------------------
